@@ -131,7 +131,14 @@ func main() {
 			die(2, "INTERNAL-ERROR cannot build instrumenter")
 		}
 	}
-	if out, err := run(verif, goEnv(), instr, "-repo", "/repo", "-out", scratch); err != nil {
+	// loops of the parser dependency are counted too (work bound / hang detection of C09)
+	tickDirs := ""
+	if d, err := run(filepath.Join(verif, "harness"), goEnv(), "go1.26.8", "list", "-m", "-f", "{{.Dir}}", "github.com/zishang520/engine.io-go-parser"); err == nil {
+		if d = strings.TrimSpace(d); d != "" && !strings.Contains(d, "\n") {
+			tickDirs = filepath.Join(d, "parser") + "," + filepath.Join(d, "utils")
+		}
+	}
+	if out, err := run(verif, goEnv(), instr, "-repo", "/repo", "-out", scratch, "-tick", tickDirs); err != nil {
 		fmt.Print(out)
 		fmt.Printf("INTERNAL-ERROR instrumenter failed on the current /repo tree\n")
 		cleanupAndExit(2)
